@@ -94,6 +94,7 @@ struct central_model
     struct update { bool active = false; std::uint64_t instant = 0; int kind = 0; std::uint32_t win_size_us = 0, win_offset_us = 0, interval_us = 0; std::uint16_t latency = 0; std::uint32_t timeout_us = 0;
                     std::uint8_t chm[ 5 ] = { 0 }; unsigned phy = 1; bool acked = false; int tag = 0; bool legal = true; std::int64_t jitter_ns = 0; } upd;
     bool            sync_excused = false;   // the central did something that excuses the peripheral from staying in sync
+    bool            timing_unconfirmed = false;     // the central applied new connection timing and the peripheral did not yet meet an anchor with it
     // ARQ
     bool            sn = false, nesn = false;
     std::deque< ll_pdu > txq;
@@ -794,6 +795,7 @@ inline void world::central_advance_event()
         case 0:
             next += static_cast< std::int64_t >( static_cast< long double >( c_.upd.win_offset_us ) * 1000.0L * k ) + c_.upd.jitter_ns;
             timeout_before_update_us_ = c_.timeout_us; update_applied_local_us_ = to_local_us( next );
+            c_.timing_unconfirmed = true;
             c_.interval_us = c_.upd.interval_us; c_.latency = c_.upd.latency; c_.timeout_us = c_.upd.timeout_us;
             break;
         case 1: std::memcpy( c_.chm, c_.upd.chm, 5 ); break;
@@ -878,8 +880,10 @@ inline void world::connection_event_activity()
                      "event %llu: window [%lld, %lld] us after T0 does not contain the central's anchor at %lld us (interval %u us, combined accuracy, drifts p %.0f ppm c %.0f ppm)", (unsigned long long)k_abs,
                      (long long)( ws - r_.t0_us ), (long long)( we - r_.t0_us ), (long long)( to_local_us( c_.anchor_ns ) - r_.t0_us ), c_.interval_us, p_drift_ * 1e6, c_.drift * 1e6 );
             // a connection update that was not applied in time: from here on both sides use different timing, everything else would be a consequence
-            if ( around_update && c_.upd.kind == 0 ) c_.sync_excused = true;
+            // (the central may already have queued the next update: timing_unconfirmed remembers the one it applied)
+            if ( around_update && ( c_.upd.kind == 0 || c_.timing_unconfirmed ) ) c_.sync_excused = true;
         }
+        if ( k_abs == c_.abs_counter && in_window ) c_.timing_unconfirmed = false;
         if ( k_abs != c_.abs_counter && in_window )
             violate( "C23", "event-counter", "event-counter", "the window contains the central's event %llu but the peripheral counts it as event %llu", (unsigned long long)c_.abs_counter, (unsigned long long)k_abs );
         // C20: channel of the targeted event
